@@ -38,6 +38,7 @@ type authCfg struct {
 	locDef    string
 	resource  string
 	strict    bool
+	segPrefix bool
 }
 
 var acrSupported = []string{"idporten-loa-substantial", "idporten-loa-high", "other-acr"}
@@ -55,9 +56,9 @@ func (c authCfg) line() string {
 		}
 		return strings.Join(o, ",")
 	}
-	return fmt.Sprintf("1 %s %s %s %s %s %s %s %s %s %d %d %d %d", strings.Join(ings, ";"), hx("client-id"), hx(idpIssuer),
+	return fmt.Sprintf("1 %s %s %s %s %s %s %s %s %s %d %d %d %d %d", strings.Join(ings, ";"), hx("client-id"), hx(idpIssuer),
 		hx(c.acrDef), hl(acrSupported), hx(c.locDef), hl(locSupported), hx("openid some-scope"), hx(c.resource),
-		bi(c.opts.par), bi(c.opts.useSecret), bi(c.opts.issParam), bi(c.strict))
+		bi(c.opts.par), bi(c.opts.useSecret), bi(c.opts.issParam), bi(c.strict), bi(c.segPrefix))
 }
 
 func s256(v string) string {
@@ -564,6 +565,7 @@ func runAuth(args []string) error {
 	seed := fs.Int64("seed", 1, "PRNG seed")
 	tier := fs.String("tier", "quick", "quick|thorough")
 	strict := fs.Bool("cookie-strict", false, "model flag: GetLoginCookie rejects incomplete records")
+	seg := fs.Bool("seg-prefix", false, "model flag: ingress paths match on segment boundaries")
 	mode := fs.String("mode", "login", "login | callback")
 	fs.Parse(args)
 	sharedKeys()
@@ -597,6 +599,7 @@ func runAuth(args []string) error {
 		{"https://a.example.com", "https://b.example.com/app"},
 		{"http://wonderwall", "http://wonderwall/app", "http://wonderwall/app/sub"},
 		{"https://a.example.com/x", "http://other.example.org:8080/x/y"},
+		{"http://wonderwall", "http://wonderwall/o", "http://wonderwall/app", "http://wonderwall/apple"},
 	}
 	if *mode == "login" {
 		nper := 45
@@ -606,7 +609,7 @@ func runAuth(args []string) error {
 		for _, ings := range ingressSets {
 			for _, acrDef := range []string{"", "idporten-loa-high", "Level4", "unsupported-acr"} {
 				for _, variant := range []int{0, 1, 2, 3} {
-					c := authCfg{acrDef: acrDef, strict: *strict}
+					c := authCfg{acrDef: acrDef, strict: *strict, segPrefix: *seg}
 					c.opts.par = variant&1 == 1
 					c.opts.useSecret = variant&2 == 2
 					c.locDef = pick(rng, "", "nb")
@@ -666,7 +669,7 @@ func runAuth(args []string) error {
 		other := verifx.NewCrypter([]byte("ffffffffffffffffffffffffffffffff"))
 		for _, issSup := range []bool{false, true} {
 			for _, secret := range []bool{true, false} {
-				c := authCfg{strict: *strict}
+				c := authCfg{strict: *strict, segPrefix: *seg}
 				c.opts.issParam = issSup
 				c.opts.useSecret = secret
 				c.ingresses = [][3]string{parseIngress("http://wonderwall")}
